@@ -34,6 +34,9 @@ extern unsigned long shim_refused;     /* requests above the refusal line */
 extern int shim_next_tag;              /* tag given to the next tracked allocation */
 
 void shim_bail(int code) __attribute__((noreturn));  /* harness watchdog: leave the library call in flight (SHIM_CALL reports code, >= 3) */
+/* hang watchdog: a 1 s interval timer; a library call (SHIM_CALL) that is still the same call after 3 ticks is abandoned with code 3 */
+void shim_watchdog_start(void);
+extern volatile unsigned long shim_call_seq;
 void shim_reset(void);                 /* free every live tracked block, clear tables, faults and log */
 void shim_evclear(void);
 int  shim_nlive(void);
@@ -55,9 +58,9 @@ int   __real_rand(void);
 #define SHIM_CALL(AB, STMT) do {                                   \
         jmp_buf shim_save_; int shim_was_armed_ = shim_armed;      \
         memcpy(shim_save_, shim_jb, sizeof shim_save_);            \
-        shim_armed = 1; shim_aborted = 0; shim_in_lib++;           \
+        shim_armed = 1; shim_aborted = 0; shim_in_lib++; shim_call_seq++; \
         if (setjmp(shim_jb) == 0) { STMT; }                        \
-        shim_in_lib--; (AB) = shim_aborted; shim_aborted = 0;      \
+        shim_in_lib--; (AB) = shim_aborted; shim_aborted = 0; shim_call_seq++; \
         shim_armed = shim_was_armed_;                              \
         memcpy(shim_jb, shim_save_, sizeof shim_save_);            \
     } while (0)
